@@ -88,6 +88,32 @@ macro_rules! check_pair {
     }};
 }
 
+/// The same three groups of assertions, one group per harness (composite types:
+/// every comparison re-normalises the symbolic operand, so the groups are
+/// decided in separate solver runs).
+pub const EQ: u8 = 0;
+pub const ORD: u8 = 1;
+pub const HASH: u8 = 2;
+
+macro_rules! check_mode {
+    ($mode:expr, $x:expr, $y:expr, $want:expr, $what:literal) => {{
+        let want: Ordering = $want;
+        if $mode == EQ {
+            let eq = *$x == *$y;
+            assert!(eq == (want == Ordering::Equal), concat!("C07: ", $what, " equality differs from equality of the canonical forms"));
+            assert!((*$y == *$x) == eq, concat!("C07: ", $what, " equality is not symmetric"));
+        } else if $mode == ORD {
+            let c = $x.cmp($y);
+            assert!(c == want, concat!("C08: ", $what, " ordering differs from the order of the canonical forms"));
+            assert!($x.partial_cmp($y) == Some(c), concat!("C08: ", $what, " partial_cmp != Some(cmp)"));
+        } else {
+            if want == Ordering::Equal {
+                assert!(Stream::of($x).same(&Stream::of($y)), concat!("C08: equal ", $what, " values feed different data to the hasher"));
+            }
+        }
+    }};
+}
+
 macro_rules! pct_pair {
     ($fname:ident, $T:ty, $mk:expr, $what:literal) => {
         /// Components compared after percent-decoding (octets).
@@ -312,44 +338,36 @@ pub const PATH_REPS: [&[u8]; 14] = [
 ];
 
 /// One operand symbolic, the other a listed representative (so that one
-/// normalisation constant-folds): both argument orders.
-fn path_vs_rep<const N: usize, const K: usize>() {
+/// normalisation constant-folds).
+fn path_vs_rep<const N: usize, const K: usize, const MODE: u8>() {
     let t = Text::<N>::any();
     let a = t.bytes();
     assume(uri::Path::new(a).is_ok());
     let x = unsafe { uri::Path::new_unchecked(a) };
     let r = PATH_REPS[K];
     let y = unsafe { uri::Path::new_unchecked(r) };
-    check_pair!(x, y, path_order(a, r), "uri::Path");
-    cover!(*x == *y && a.len() != r.len(), "equal to the representative with a different text");
-    cover!(*x != *y, "different from the representative");
-    std::mem::forget(x);
+    let want = path_order(a, r);
+    check_mode!(MODE, x, y, want, "uri::Path");
+    cover!(want == Ordering::Equal && a.len() != r.len(), "equal to the representative with a different text");
+    cover!(want != Ordering::Equal, "different from the representative");
 }
 
-macro_rules! path_rep_harness {
-    ($name:ident, $n:expr, $k:expr) => {
-        pub fn $name() {
-            path_vs_rep::<$n, $k>()
-        }
-    };
-}
-
-// @h prop=C07,C08 tier=quick kind=check timeout=3000 mem=24 bound="uri::Path <= 4 bytes x representative 'a/..' (both orders)" encodes="PartialEq/Ord/Hash for uri::Path;NormalizedSegmentsImpl::new (SmallVec::push/try_grow stubbed)"
+// @h prop=C07,C08 tier=quick kind=check timeout=3000 mem=24 bound="uri::Path <= 4 bytes x representative 'a/..': equality, both orders" encodes="PartialEq/Ord/Hash for uri::Path;NormalizedSegmentsImpl::new (SmallVec::push/try_grow stubbed)"
 #[cfg_attr(kani, kani::proof)]
 #[cfg_attr(kani, kani::unwind(10))]
 #[cfg_attr(kani, kani::stub(smallvec::SmallVec::try_grow, crate::stubs::sv_try_grow))]
 #[cfg_attr(kani, kani::stub(smallvec::SmallVec::push, crate::stubs::sv_push))]
-pub fn c07_path_vs_rep6_n4() {
-    path_vs_rep::<4, 6>()
+pub fn c07_path_eq_rep6_n4() {
+    path_vs_rep::<4, 6, EQ>()
 }
 
-// @h prop=C07,C08 tier=quick kind=check timeout=3000 mem=24 bound="uri::Path <= 4 bytes x representative '//a' (both orders)" encodes="same as c07_path_vs_rep6_n4"
+// @h prop=C07,C08 tier=quick kind=check timeout=3000 mem=24 bound="uri::Path <= 4 bytes x representative '//a': ordering" encodes="same as c07_path_vs_rep6_n4"
 #[cfg_attr(kani, kani::proof)]
 #[cfg_attr(kani, kani::unwind(10))]
 #[cfg_attr(kani, kani::stub(smallvec::SmallVec::try_grow, crate::stubs::sv_try_grow))]
 #[cfg_attr(kani, kani::stub(smallvec::SmallVec::push, crate::stubs::sv_push))]
-pub fn c07_path_vs_rep8_n4() {
-    path_vs_rep::<4, 8>()
+pub fn c07_path_ord_rep8_n4() {
+    path_vs_rep::<4, 8, ORD>()
 }
 
 // @h prop=C07,C08 tier=thorough kind=check timeout=5400 mem=26 bound="uri::Path <= 5 bytes x representative '' (both orders)" encodes="same as c07_path_vs_rep6_n4"
@@ -357,8 +375,8 @@ pub fn c07_path_vs_rep8_n4() {
 #[cfg_attr(kani, kani::unwind(10))]
 #[cfg_attr(kani, kani::stub(smallvec::SmallVec::try_grow, crate::stubs::sv_try_grow))]
 #[cfg_attr(kani, kani::stub(smallvec::SmallVec::push, crate::stubs::sv_push))]
-pub fn c07_path_vs_rep0_n5() {
-    path_vs_rep::<5, 0>()
+pub fn c07_path_eq_rep0_n5() {
+    path_vs_rep::<5, 0, EQ>()
 }
 
 // @h prop=C07,C08 tier=thorough kind=check timeout=5400 mem=26 bound="uri::Path <= 5 bytes x representative '/' (both orders)" encodes="same as c07_path_vs_rep6_n4"
@@ -366,8 +384,8 @@ pub fn c07_path_vs_rep0_n5() {
 #[cfg_attr(kani, kani::unwind(10))]
 #[cfg_attr(kani, kani::stub(smallvec::SmallVec::try_grow, crate::stubs::sv_try_grow))]
 #[cfg_attr(kani, kani::stub(smallvec::SmallVec::push, crate::stubs::sv_push))]
-pub fn c07_path_vs_rep1_n5() {
-    path_vs_rep::<5, 1>()
+pub fn c07_path_eq_rep1_n5() {
+    path_vs_rep::<5, 1, EQ>()
 }
 
 // @h prop=C07,C08 tier=thorough kind=check timeout=5400 mem=26 bound="uri::Path <= 5 bytes x representative 'a' (both orders)" encodes="same as c07_path_vs_rep6_n4"
@@ -375,8 +393,8 @@ pub fn c07_path_vs_rep1_n5() {
 #[cfg_attr(kani, kani::unwind(10))]
 #[cfg_attr(kani, kani::stub(smallvec::SmallVec::try_grow, crate::stubs::sv_try_grow))]
 #[cfg_attr(kani, kani::stub(smallvec::SmallVec::push, crate::stubs::sv_push))]
-pub fn c07_path_vs_rep2_n5() {
-    path_vs_rep::<5, 2>()
+pub fn c07_path_eq_rep2_n5() {
+    path_vs_rep::<5, 2, EQ>()
 }
 
 // @h prop=C07,C08 tier=thorough kind=check timeout=5400 mem=26 bound="uri::Path <= 5 bytes x representative 'a/' (both orders)" encodes="same as c07_path_vs_rep6_n4"
@@ -384,8 +402,8 @@ pub fn c07_path_vs_rep2_n5() {
 #[cfg_attr(kani, kani::unwind(10))]
 #[cfg_attr(kani, kani::stub(smallvec::SmallVec::try_grow, crate::stubs::sv_try_grow))]
 #[cfg_attr(kani, kani::stub(smallvec::SmallVec::push, crate::stubs::sv_push))]
-pub fn c07_path_vs_rep3_n5() {
-    path_vs_rep::<5, 3>()
+pub fn c07_path_eq_rep3_n5() {
+    path_vs_rep::<5, 3, EQ>()
 }
 
 // @h prop=C07,C08 tier=thorough kind=check timeout=5400 mem=26 bound="uri::Path <= 5 bytes x representative 'a/b' (both orders)" encodes="same as c07_path_vs_rep6_n4"
@@ -393,8 +411,8 @@ pub fn c07_path_vs_rep3_n5() {
 #[cfg_attr(kani, kani::unwind(10))]
 #[cfg_attr(kani, kani::stub(smallvec::SmallVec::try_grow, crate::stubs::sv_try_grow))]
 #[cfg_attr(kani, kani::stub(smallvec::SmallVec::push, crate::stubs::sv_push))]
-pub fn c07_path_vs_rep4_n5() {
-    path_vs_rep::<5, 4>()
+pub fn c07_path_eq_rep4_n5() {
+    path_vs_rep::<5, 4, EQ>()
 }
 
 // @h prop=C07,C08 tier=thorough kind=check timeout=5400 mem=26 bound="uri::Path <= 5 bytes x representative '..' (both orders)" encodes="same as c07_path_vs_rep6_n4"
@@ -402,17 +420,17 @@ pub fn c07_path_vs_rep4_n5() {
 #[cfg_attr(kani, kani::unwind(10))]
 #[cfg_attr(kani, kani::stub(smallvec::SmallVec::try_grow, crate::stubs::sv_try_grow))]
 #[cfg_attr(kani, kani::stub(smallvec::SmallVec::push, crate::stubs::sv_push))]
-pub fn c07_path_vs_rep5_n5() {
-    path_vs_rep::<5, 5>()
+pub fn c07_path_eq_rep5_n5() {
+    path_vs_rep::<5, 5, EQ>()
 }
 
-// @h prop=C07,C08 tier=thorough kind=check timeout=5400 mem=26 bound="uri::Path <= 5 bytes x representative 'a/..' (both orders)" encodes="same as c07_path_vs_rep6_n4"
+// @h prop=C07,C08 tier=thorough kind=check timeout=5400 mem=26 bound="uri::Path <= 5 bytes x representative 'a/..': equality, both orders" encodes="same as c07_path_vs_rep6_n4"
 #[cfg_attr(kani, kani::proof)]
 #[cfg_attr(kani, kani::unwind(10))]
 #[cfg_attr(kani, kani::stub(smallvec::SmallVec::try_grow, crate::stubs::sv_try_grow))]
 #[cfg_attr(kani, kani::stub(smallvec::SmallVec::push, crate::stubs::sv_push))]
-pub fn c07_path_vs_rep6_n5() {
-    path_vs_rep::<5, 6>()
+pub fn c07_path_eq_rep6_n5() {
+    path_vs_rep::<5, 6, EQ>()
 }
 
 // @h prop=C07,C08 tier=thorough kind=check timeout=5400 mem=26 bound="uri::Path <= 5 bytes x representative './a' (both orders)" encodes="same as c07_path_vs_rep6_n4"
@@ -420,17 +438,17 @@ pub fn c07_path_vs_rep6_n5() {
 #[cfg_attr(kani, kani::unwind(10))]
 #[cfg_attr(kani, kani::stub(smallvec::SmallVec::try_grow, crate::stubs::sv_try_grow))]
 #[cfg_attr(kani, kani::stub(smallvec::SmallVec::push, crate::stubs::sv_push))]
-pub fn c07_path_vs_rep7_n5() {
-    path_vs_rep::<5, 7>()
+pub fn c07_path_eq_rep7_n5() {
+    path_vs_rep::<5, 7, EQ>()
 }
 
-// @h prop=C07,C08 tier=thorough kind=check timeout=5400 mem=26 bound="uri::Path <= 5 bytes x representative '//a' (both orders)" encodes="same as c07_path_vs_rep6_n4"
+// @h prop=C07,C08 tier=thorough kind=check timeout=5400 mem=26 bound="uri::Path <= 5 bytes x representative '//a': ordering" encodes="same as c07_path_vs_rep6_n4"
 #[cfg_attr(kani, kani::proof)]
 #[cfg_attr(kani, kani::unwind(10))]
 #[cfg_attr(kani, kani::stub(smallvec::SmallVec::try_grow, crate::stubs::sv_try_grow))]
 #[cfg_attr(kani, kani::stub(smallvec::SmallVec::push, crate::stubs::sv_push))]
-pub fn c07_path_vs_rep8_n5() {
-    path_vs_rep::<5, 8>()
+pub fn c07_path_eq_rep8_n5() {
+    path_vs_rep::<5, 8, EQ>()
 }
 
 // @h prop=C07,C08 tier=thorough kind=check timeout=5400 mem=26 bound="uri::Path <= 5 bytes x representative '%61' (both orders)" encodes="same as c07_path_vs_rep6_n4"
@@ -438,8 +456,8 @@ pub fn c07_path_vs_rep8_n5() {
 #[cfg_attr(kani, kani::unwind(10))]
 #[cfg_attr(kani, kani::stub(smallvec::SmallVec::try_grow, crate::stubs::sv_try_grow))]
 #[cfg_attr(kani, kani::stub(smallvec::SmallVec::push, crate::stubs::sv_push))]
-pub fn c07_path_vs_rep9_n5() {
-    path_vs_rep::<5, 9>()
+pub fn c07_path_eq_rep9_n5() {
+    path_vs_rep::<5, 9, EQ>()
 }
 
 // @h prop=C07,C08 tier=thorough kind=check timeout=5400 mem=26 bound="uri::Path <= 5 bytes x representative '/a' (both orders)" encodes="same as c07_path_vs_rep6_n4"
@@ -447,8 +465,8 @@ pub fn c07_path_vs_rep9_n5() {
 #[cfg_attr(kani, kani::unwind(10))]
 #[cfg_attr(kani, kani::stub(smallvec::SmallVec::try_grow, crate::stubs::sv_try_grow))]
 #[cfg_attr(kani, kani::stub(smallvec::SmallVec::push, crate::stubs::sv_push))]
-pub fn c07_path_vs_rep10_n5() {
-    path_vs_rep::<5, 10>()
+pub fn c07_path_eq_rep10_n5() {
+    path_vs_rep::<5, 10, EQ>()
 }
 
 // @h prop=C07,C08 tier=thorough kind=check timeout=5400 mem=26 bound="uri::Path <= 5 bytes x representative '/a/.' (both orders)" encodes="same as c07_path_vs_rep6_n4"
@@ -456,8 +474,8 @@ pub fn c07_path_vs_rep10_n5() {
 #[cfg_attr(kani, kani::unwind(10))]
 #[cfg_attr(kani, kani::stub(smallvec::SmallVec::try_grow, crate::stubs::sv_try_grow))]
 #[cfg_attr(kani, kani::stub(smallvec::SmallVec::push, crate::stubs::sv_push))]
-pub fn c07_path_vs_rep11_n5() {
-    path_vs_rep::<5, 11>()
+pub fn c07_path_eq_rep11_n5() {
+    path_vs_rep::<5, 11, EQ>()
 }
 
 // @h prop=C07,C08 tier=thorough kind=check timeout=5400 mem=26 bound="uri::Path <= 5 bytes x representative '../a' (both orders)" encodes="same as c07_path_vs_rep6_n4"
@@ -465,8 +483,8 @@ pub fn c07_path_vs_rep11_n5() {
 #[cfg_attr(kani, kani::unwind(10))]
 #[cfg_attr(kani, kani::stub(smallvec::SmallVec::try_grow, crate::stubs::sv_try_grow))]
 #[cfg_attr(kani, kani::stub(smallvec::SmallVec::push, crate::stubs::sv_push))]
-pub fn c07_path_vs_rep12_n5() {
-    path_vs_rep::<5, 12>()
+pub fn c07_path_eq_rep12_n5() {
+    path_vs_rep::<5, 12, EQ>()
 }
 
 // @h prop=C07,C08 tier=thorough kind=check timeout=5400 mem=26 bound="uri::Path <= 5 bytes x representative '/%2F' (both orders)" encodes="same as c07_path_vs_rep6_n4"
@@ -474,12 +492,12 @@ pub fn c07_path_vs_rep12_n5() {
 #[cfg_attr(kani, kani::unwind(10))]
 #[cfg_attr(kani, kani::stub(smallvec::SmallVec::try_grow, crate::stubs::sv_try_grow))]
 #[cfg_attr(kani, kani::stub(smallvec::SmallVec::push, crate::stubs::sv_push))]
-pub fn c07_path_vs_rep13_n5() {
-    path_vs_rep::<5, 13>()
+pub fn c07_path_eq_rep13_n5() {
+    path_vs_rep::<5, 13, EQ>()
 }
 
 /// Deeper, over a dot-segment alphabet ({'.','/','a'}), against a representative.
-fn path_dots_vs_rep<const N: usize, const K: usize>() {
+fn path_dots_vs_rep<const N: usize, const K: usize, const MODE: u8>() {
     let t = Text::<N>::any();
     let a = t.bytes();
     let mut i = 0;
@@ -490,9 +508,10 @@ fn path_dots_vs_rep<const N: usize, const K: usize>() {
     let x = unsafe { uri::Path::new_unchecked(a) };
     let r = PATH_REPS[K];
     let y = unsafe { uri::Path::new_unchecked(r) };
-    check_pair!(x, y, path_order(a, r), "uri::Path");
-    cover!(*x == *y && a.len() >= r.len() + 4, "equal to the representative after removing two or more dot segments");
-    cover!(*x != *y, "different from the representative");
+    let want = path_order(a, r);
+    check_mode!(MODE, x, y, want, "uri::Path");
+    cover!(want == Ordering::Equal && a.len() >= r.len() + 4, "equal to the representative after removing two or more dot segments");
+    cover!(want != Ordering::Equal, "different from the representative");
 }
 
 // @h prop=C07,C08 tier=quick kind=check timeout=3000 mem=24 bound="paths <= 7 bytes over the alphabet {'.','/','a'} x representative '..' (both orders)" encodes="PartialEq/Ord/Hash for uri::Path on dot-segment mixtures"
@@ -500,8 +519,8 @@ fn path_dots_vs_rep<const N: usize, const K: usize>() {
 #[cfg_attr(kani, kani::unwind(10))]
 #[cfg_attr(kani, kani::stub(smallvec::SmallVec::try_grow, crate::stubs::sv_try_grow))]
 #[cfg_attr(kani, kani::stub(smallvec::SmallVec::push, crate::stubs::sv_push))]
-pub fn c07_path_dots_vs_rep5_n7() {
-    path_dots_vs_rep::<7, 5>()
+pub fn c07_path_dots_eq_rep5_n7() {
+    path_dots_vs_rep::<7, 5, EQ>()
 }
 
 // @h prop=C07,C08 tier=thorough kind=check timeout=5400 mem=26 bound="paths <= 9 bytes over the alphabet {'.','/','a'} x representative 'a/b' (both orders)" encodes="same as c07_path_dots_vs_rep5_n7"
@@ -509,6 +528,15 @@ pub fn c07_path_dots_vs_rep5_n7() {
 #[cfg_attr(kani, kani::unwind(12))]
 #[cfg_attr(kani, kani::stub(smallvec::SmallVec::try_grow, crate::stubs::sv_try_grow))]
 #[cfg_attr(kani, kani::stub(smallvec::SmallVec::push, crate::stubs::sv_push))]
-pub fn c07_path_dots_vs_rep4_n9() {
-    path_dots_vs_rep::<9, 4>()
+pub fn c07_path_dots_eq_rep4_n9() {
+    path_dots_vs_rep::<9, 4, EQ>()
+}
+
+// @h prop=C07,C08 tier=quick kind=check timeout=3000 mem=24 bound="uri::Path <= 4 bytes x representative '%61': equal values hash identically" encodes="Hash for uri::Path (absolute flag + normalised segments through pct_hash)"
+#[cfg_attr(kani, kani::proof)]
+#[cfg_attr(kani, kani::unwind(10))]
+#[cfg_attr(kani, kani::stub(smallvec::SmallVec::try_grow, crate::stubs::sv_try_grow))]
+#[cfg_attr(kani, kani::stub(smallvec::SmallVec::push, crate::stubs::sv_push))]
+pub fn c07_path_hash_rep9_n4() {
+    path_vs_rep::<4, 9, HASH>()
 }
